@@ -185,7 +185,13 @@ func (in *Interp) sprintf(format string, args []Value) Value {
 			out = in.strConcat(out, "%!"+string(verb)+"(MISSING)")
 			continue
 		}
-		out = in.strConcat(out, in.fmtValue(verb, args[ai]))
+		fv := in.fmtValue(verb, args[ai])
+		switch fv.(type) {
+		case string, *SymStr:
+		default: // a String()/Error() method that did not yield a string value the engine can splice: opaque
+			fv = "<value>"
+		}
+		out = in.strConcat(out, fv)
 		ai++
 	}
 	return out
